@@ -19,7 +19,9 @@ the problem data alone.  This file proves
   (`ops.filter (fun op => op.isHeur || op.isMutator)` keeps every state-changing call);
 * the connection to the instance-level heuristics of `VrpModel/Heuristics.lean`
   (`arc_makeFeasible_connection`, `seq_makeFeasible_connection`), so that the soundness theorems of `Props/C09*.lean`
-  apply to what the object stores;
+  apply to what the object stores; the arc connection assumes a NON-EMPTY time grid (`o.inst.T ≠ []`), because
+  `ArcInst.makeFeasible` does not cover the empty grid (`arc_connection_fails_on_empty_grid`) — refinement does, and
+  `arc_empty_grid_history` replays the history in which `make_feasible` raises `IndexError` after having added an arc;
 * expressiveness checks.  A mutator that forgets the hook breaks refinement on a query–mutator–query history
   (`arc_addTimePoints_nohook_not_refines`, `seq_setMaxVehicles_nohook_not_refines`), and so does the sequence heuristic
   without its loop-head reset (`seq_head_noreset_not_refines`).  The former defective variants of the EXPLICIT resets
@@ -278,14 +280,21 @@ theorem arc_queries_irrelevant_decode (I : ArcInst) (ops : List ArcFOp) (x : Lis
 
 /-! ### connection to `ArcInst.makeFeasible` -/
 
-/-- when `make_feasible` on a coherent object succeeds, the resulting problem data and stored solution are those of
-    `ArcInst.makeFeasible`; and it raises iff that one fails (with the same error) -/
-theorem arc_makeFeasible_connection {o : ArcObj} (hc : o.Coherent) (high : Rat) :
+/-- when `make_feasible` on a coherent object with a NON-EMPTY time grid succeeds, the resulting problem data and stored
+    solution are those of `ArcInst.makeFeasible`; and it raises iff that one fails (with the same error).
+
+    Hypothesis `o.inst.T ≠ []`: the instance-level heuristic `ArcInst.makeFeasible` (`VrpModel/Heuristics.lean`) is
+    documented as not covering the empty grid — it answers `.error .index` for every empty grid and carries no partial
+    state.  The code, and the flag-level model, behave differently there: with an empty grid, `max_vehicles = 0` and no
+    unvisited node they SUCCEED with the empty solution (`arc_connection_fails_on_empty_grid`), and with an unvisited
+    node they raise `IndexError` only after the entry arc has been added (`arc_empty_grid_history`).  Refinement
+    (`arc_refines`) covers the empty grid; only this connection does not. -/
+theorem arc_makeFeasible_connection {o : ArcObj} (hc : o.Coherent) (hT : o.inst.T ≠ []) (high : Rat) :
     (∀ J sol, o.inst.makeFeasible high = .ok (J, sol) ↔
         ((o.makeFeasible high).2 = .ok () ∧ (o.makeFeasible high).1.inst = J ∧ (o.makeFeasible high).1.sol = some sol)) ∧
     (∀ e, o.inst.makeFeasible high = .error e ↔ (o.makeFeasible high).2 = .error e) := by
   obtain ⟨_, h2, h3⟩ := ArcObj.makeFeasible_spec hc high
-  rw [arc_makeFeasible_eq_heurP]
+  rw [arc_makeFeasible_eq_heurP _ hT]
   cases hr : (o.inst.heurP high).2 with
   | ok sol' =>
     rw [hr] at h3
@@ -317,14 +326,15 @@ theorem arc_makeFeasible_connection {o : ArcObj} (hc : o.Coherent) (high : Rat) 
     · intro e
       simp only [Except.error.injEq]
 
-/-- the same along any history: whatever was asked before, a heuristic call on the object behaves as
-    `ArcInst.makeFeasible` on the current problem data -/
-theorem arc_makeFeasible_connection_run (I : ArcInst) (ops : List ArcFOp) (high : Rat) :
+/-- the same along any history that ends with a non-empty time grid: whatever was asked before, a heuristic call on the
+    object behaves as `ArcInst.makeFeasible` on the current problem data -/
+theorem arc_makeFeasible_connection_run (I : ArcInst) (ops : List ArcFOp) (high : Rat)
+    (hT : ((ArcObj.init I).run ops).1.inst.T ≠ []) :
     let o := ((ArcObj.init I).run ops).1
     (∀ J sol, o.inst.makeFeasible high = .ok (J, sol) ↔
         ((o.makeFeasible high).2 = .ok () ∧ (o.makeFeasible high).1.inst = J ∧ (o.makeFeasible high).1.sol = some sol)) ∧
     (∀ e, o.inst.makeFeasible high = .error e ↔ (o.makeFeasible high).2 = .error e) :=
-  arc_makeFeasible_connection (arc_run_refines (arc_coherent_init I) ops).2.2 high
+  arc_makeFeasible_connection (arc_run_refines (arc_coherent_init I) ops).2.2 hT high
 
 /-! ### the explicit flag resets inside the arc heuristic after the introduction of the hook
 
@@ -481,6 +491,62 @@ theorem arc_addTimePoints_nohook_replies :
     (({ inst := exInst1 } : ArcAbs).specRun exHistTP).2 = [.num 6, .done, .num 12] ∧
     ((ArcObj.init exInst1).run exHistTP).2 = [.num 6, .done, .num 12] := by
   decide +kernel
+
+/-! ### the empty time grid
+
+`make_feasible` reaches `self.time_points[0]` at two program points: at the top of the vehicle loop (skipped when
+`estimate_max_vehicles() = 0`) and in the dummy-arc loop AFTER `self.add_arc(depot, node, 0, high_cost)`.  With an empty
+grid and `max_vehicles = 0` the second one raises `IndexError` on an object that already holds the new entry arc; with no
+unvisited node either, nothing raises and the empty all-zero solution is stored. -/
+
+/-- two nodes `d`, `a`, no arcs (so `max_vehicles = 0`), depot `d`, EMPTY time grid -/
+def exInstE : ArcInst :=
+  { g := { nodes := [exNode "d", exNode "a"], arcs := [] }, T := [] }
+
+/-- the audit's history `n; heur 100; tp [0]; n` on `exInstE` -/
+def exHistE : List ArcFOp := [.numVars, .heur 100, .addTimePoints [0], .numVars]
+
+/-- **replay of the audit's history on the model**: `get_num_variables()` → 0 and `variables_enumerated` is set;
+    `make_feasible(100)` raises `IndexError`, and afterwards the problem HAS the entry arc `(0, 1)` and all three flags
+    are unset; after `add_time_points([0])`, `get_num_variables()` → 1 (the tuple `(0, 0, 1, 0)` of the arc that the
+    failed heuristic left behind) -/
+theorem arc_empty_grid_history :
+    let o₁ := ((ArcObj.init exInstE).run [.numVars]).1
+    let o₂ := ((ArcObj.init exInstE).run [.numVars, .heur 100]).1
+    ((ArcObj.init exInstE).run exHistE).2 = [.num 0, .raised .index, .done, .num 1] ∧
+    (o₁.variablesEnumerated, o₁.objectiveBuilt, o₁.constraintsBuilt) = (true, false, false) ∧
+    o₁.inst.g.arcs.map (·.1) = [] ∧
+    o₂.inst.g.arcs.map (·.1) = [(0, 1)] ∧ o₂.inst.g.hasArc 0 1 = true ∧ o₂.inst.T = [] ∧ o₂.sol = none ∧
+    (o₂.variablesEnumerated, o₂.objectiveBuilt, o₂.constraintsBuilt) = (false, false, false) := by
+  decide +kernel
+
+/-- the specification gives the same replies on that history, and ends in the same problem data (an instance of
+    `arc_refines`, here by evaluation) -/
+example :
+    (({ inst := exInstE } : ArcAbs).specRun exHistE).2 = [.num 0, .raised .index, .done, .num 1] ∧
+    ((({ inst := exInstE } : ArcAbs).specRun exHistE).1.inst.g.arcs.map (·.1)) = [(0, 1)] := by
+  decide +kernel
+
+/-- `max_vehicles ≥ 1` on an empty grid: `IndexError` at the top of the vehicle loop, nothing written — the flag set by
+    the preceding query is still set and no arc has been added -/
+example :
+    let I : ArcInst := { g := { nodes := [exNode "d", exNode "a"],
+                                arcs := [((0, 1), ⟨"d", "a", 1, 1⟩), ((1, 0), ⟨"a", "d", 1, 1⟩)] }, T := [] }
+    let o := ((ArcObj.init I).run [.numVars, .heur 100]).1
+    ((ArcObj.init I).run [.numVars, .heur 100]).2 = [.num 0, .raised .index] ∧
+    o.variablesEnumerated = true ∧ o.inst.g.arcs.length = 2 := by
+  decide +kernel
+
+/-- only the depot, empty grid -/
+def exInstE0 : ArcInst := { g := { nodes := [exNode "d"], arcs := [] }, T := [] }
+
+/-- **why `arc_makeFeasible_connection` needs `o.inst.T ≠ []`**: with an empty grid, `max_vehicles = 0` and no unvisited
+    node the object's `make_feasible` returns normally and stores the empty solution, whereas `ArcInst.makeFeasible`
+    answers `.error .index` -/
+theorem arc_connection_fails_on_empty_grid :
+    ((ArcObj.init exInstE0).makeFeasible 100).2 = .ok () ∧ ((ArcObj.init exInstE0).makeFeasible 100).1.sol = some [] ∧
+    exInstE0.makeFeasible 100 = .error .index :=
+  ⟨by rfl, by decide +kernel, arc_makeFeasible_emptyGrid _ rfl _⟩
 
 /-! ## sequence-based object
 
